@@ -69,9 +69,9 @@ MUT = ["sc", "asc", "sf", "ass", "+s", "+c", "+h", "ic", "pc", "ac", "cl", "cf",
 # operations whose level-1 model is exact for Strings with embedded NULs (F9): length-based or C-string-view-based memmoves only
 NUL_OPS = ["asc", "+h", "+h", "set", "+s", "+c", "sc", "sf", "ic", "pc", "ac", "tc", "tt", "cl", "cf", "pa", "sh", "fl", "cp", "sub", "rv", "at", "ass", "uf"]
 QRY = ["at", "ioh", "ios", "ioc", "lih", "lis1", "lis", "cnh", "cns", "sws", "ews", "swh", "ewh", "swsi", "ewsi", "cmp", "cmpi",
-       "eqi", "iosi", "lisi", "iohi", "lihi", "pns", "swn", "fl", "eqh", "eqhi", "swhi", "ewhi"]
+       "eqi", "iosi", "lisi", "iohi", "lihi", "pns", "swn", "fl", "eqh", "eqhi", "swhi", "ewhi", "dist", "ncmp", "ncmpi"]
 PRO = ["cp", "cpp", "sub", "suba", "subu", "wis", "wps", "was", "wih", "wph", "wah", "pad", "lo", "up", "mx", "tr", "wrc", "wrs",
-       "args", "argi", "wsf", "wpf", "wosf", "wopf", "wosh", "woph", "wons", "pls", "wsfh", "wpfh", "wosfi", "wopfi", "woshi", "wophi", "wiw", "waw", "wpw", "ind"]
+       "args", "argi", "wsf", "wpf", "wosf", "wopf", "wosh", "woph", "wons", "pls", "wsfh", "wpfh", "wosfi", "wopfi", "woshi", "wophi", "wiw", "waw", "wpw", "ind", "esc"]
 
 
 def gen_op(rng, name, ln, alias=0.2):
@@ -122,6 +122,10 @@ def gen_op(rng, name, ln, alias=0.2):
     if name == "ioc":  return "ioc:%s:%d" % (C(needle(rng)), idx(rng, ln)), ln
     if name in ("lis1", "sws", "ews", "swsi", "ewsi", "cmp", "cmpi", "eqi"): return "%s:%s" % (name, A(needle(rng) if rng.random() < 0.7 else None)), ln
     if name in ("swh", "ewh", "eqh", "eqhi", "swhi", "ewhi"): return "%s:%d" % (name, ch(rng)), ln
+    if name in ("ncmp", "ncmpi"):
+        v = rng.choice(["6131", "613130", "61303130", "6120203130", "7831322e35", "7831322e3035", "41", "61", "6162", "783039", "7839", "2078", "", "ff31", "6132623130", "613262394141"])
+        return "%s:%s" % (name, A(v)), ln
+    if name == "dist": return "dist:%s:%d" % (A(rbytes(rng, rng.choice([0, 1, 2, 3, 5, 8, 15, 16, 17]), 0.0) if rng.random() < 0.6 else needle(rng)), rng.choice([NOLIM, NOLIM, 0, 1, 2, 3, 5])), ln
     if name == "pns":  return "pns:%d" % rng.choice([0, 7, NOLIM]), ln
     if name == "swn":  return "swn:%d" % rng.randint(0, 1), ln
     if name == "fl":   return "fl", ln
@@ -145,6 +149,7 @@ def gen_op(rng, name, ln, alias=0.2):
     if name == "wiw":  return "wiw:%d:%s:%s" % (idx(rng, ln), A(needle(rng) if rng.random() < 0.5 else rbytes(rng, grow)), rng.choice(["20", "20", "2c20", "", "61", "2d"])), ln
     if name in ("waw", "wpw"): return "%s:%s:%s" % (name, A(needle(rng) if rng.random() < 0.5 else rbytes(rng, grow)), rng.choice(["20", "20", "2c20", "", "61", "2d"])), ln
     if name == "ind":  return "ind:%d:%d" % (rng.choice([0, 1, 2, 3, 8, 15, 16]), rng.choice([0x20, 0x20, 0x09, 0x2e, 0])), ln
+    if name == "esc":  return "esc:%s:%d" % (rng.choice(["61", "2c", "6162", "2c3b", "", "5c", "2025", "41"]), rng.choice([0x5c, 0x5c, 0x25, 0x61, 0])), ln
     if name in ("wsfh", "wpfh"): return "%s:%d" % (name, rng.choice([ch(rng), ch(rng), 0])), ln
     if name in ("wosfi", "wopfi"): return "%s:%s:%d" % (name, A(needle(rng)), cnt(rng)), ln
     if name in ("woshi", "wophi"): return "%s:%d:%d" % (name, ch(rng), cnt(rng)), ln
@@ -254,6 +259,20 @@ def directed_boundary():
     for lit in ("", "0a", "610a620d0a0a63", "0d0a61", "61626364656667680a696a6b6c6d6e6f70", "0a0a0a", "20610a2062"):
         for n in (1, 2, 7, 15, 16):
             out.append(("boundary", "c17|asc:%s;ind:%d:32;=ind:%d:46;fl" % (lit, n, n)))
+    for lit in ("", "612c62", "5c", "5c5c", "5c2c", "615c625c5c632c5c", "2c2c2c2c2c2c2c2c", "6162636465666768696a6b6c6d2c6e6f70", "5c61"):
+        for sp in ("2c", "2c61", "", "5c"):
+            out.append(("boundary", "c17|asc:%s;esc:%s:92;=esc:%s:92;esc:%s:37;fl" % (lit, sp, sp, sp)))
+    # natural-order comparison: digit runs, leading zeros (fractional mode), spaces, case folding, tie-break
+    nat = ["", "61", "41", "6131", "6132", "613130", "61303130", "613031", "61303032", "6120203130", "783132", "7831322e35", "7831322e3035",
+           "783039", "7839", "2078", "78", "6132623130", "6132623941", "613262396161", "ff31", "8031", "31", "3031", "30", "3939", "313030"]
+    for a in nat:
+        for b in nat:
+            out.append(("boundary", "c17|asc:%s;ncmp:%s;ncmpi:%s;ncmp:@;ncmpi:H%s" % (a, b, b, b)))
+    # Levenshtein distance with a maximum: the prefix distance is not monotone
+    for a, b in (("616263", "78616263"), ("78616263", "616263"), ("6b697474656e", "73697474696e67"), ("", "616263"), ("616263", ""),
+                 ("6162636465666768696a6b6c6d6e6f70", "7a7a6162636465666768696a6b6c6d6e6f70"), ("6161616161", "6161")):
+        for m in (0, 1, 2, 3, 4, NOLIM):
+            out.append(("boundary", "c17|asc:%s;dist:%s:%d;dist:@:%d;pa:40;dist:H%s:%d" % (a, b, m, m, b, m)))
     # growth policy: across 32 bytes, across the geometric range, into the page-based range
     for n in (29, 30, 31, 32, 33, 63, 64, 65, 127, 128, 129):
         out.append(("boundary", "c17|asc:61;wah:98:%d;=wah:98:%d;+h:99;+h:100;sh:0;+h:101;pa:%d" % (n, n, 2 * n)))
